@@ -82,7 +82,7 @@ def render(pre, loop, lay):
             trailing = False
         if kind.startswith("h") and lay["trailing_on_headers"]:
             trailing = rng.random() < lay["p_trailing"]
-        line = pad + code + ("  # note " + str(tag) if trailing else "") + (" " * rng.randint(1, 3) if rng.random() < lay["p_trailing_ws"] else "")
+        line = pad + code + ("  # note " + str(tag) + (' "quoted" \'q' if tag % 3 == 0 else "") if trailing else "") + (" " * rng.randint(1, 3) if rng.random() < lay["p_trailing_ws"] else "")
         text.append(line)
         model.append(f"{w}:{kind}:{'T' if trailing else 'F'}:{tag}")
 
@@ -133,7 +133,8 @@ def layout(rng, in_domain):
         "stmt": rng.choice([(lambda t: f"mon.write( {t} )"), (lambda t: f"mon.write({t})"), (lambda t: f"mon.write({t})"),
                             (lambda t: f"mon.write(\"it's {t}\")"), (lambda t: f"mon.write('say \"{t}\" # not a comment')"),
                             (lambda t: f"mon.write(\"#{t} \\\" q\")"), (lambda t: f"mon.write(\"C:\\\\{t}\\\\\")"),
-                            (lambda t: f"mon.write('it\\'s {t}')"), (lambda t: f"mon.write(\"{t}\\\\\\\"#\")")]) if spaced or rng.random() < 0.4 else (lambda t: f"mon.write({t})"),
+                            (lambda t: f"mon.write('it\\'s {t}')"), (lambda t: f"mon.write(\"{t}\\\\\\\"#\")"),
+                            (lambda t: f"mon.write(\"C:\\\\{t}\\\\\" + \"run #1\")"), (lambda t: f"mon.write('{t}\\\\' + '#' + \"x\")")]) if spaced or rng.random() < 0.4 else (lambda t: f"mon.write({t})"),
     }
 
 
